@@ -80,7 +80,10 @@ class CallMixin:
             if t.val is Int:
                 vs = z3.IntSort()
             elif isinstance(t.val, ListOfT):
-                vs = z3.SeqSort(z3.IntSort())
+                # list values: element array + length per key
+                vals = {'arr': z3.Array(fresh_name(name + '_arr'), ks, z3.ArraySort(z3.IntSort(), z3.IntSort())),
+                        'len': z3.Array(fresh_name(name + '_len'), ks, z3.IntSort())}
+                return st.alloc(HObj('smap', meta={'present': present, 'vals': vals, 'default_int': False, 'key': t.key, 'val_t': t.val}))
             else:
                 vs = U
             vals = z3.Array(fresh_name(name + '_vals'), ks, vs)
@@ -300,6 +303,14 @@ class CallMixin:
 
     def getitem(self, c, k, st, line):
         c = self.unwrap_opt(c, st, 'subscript', line)
+        if isinstance(c, tuple) and c and isinstance(c[0], str) and c[0] == 'mapslot':
+            arr, n = self.list_as_array(c, st)
+            k = to_int_term(k)
+            idx = z3.If(k < 0, k + n, k)
+            out = []
+            for inb, s2 in self.branch(st, z3.And(idx >= 0, idx < n)):
+                out.append(ok(z3.Select(arr, idx), s2) if inb else rs(ExcV('IndexError'), s2))
+            return out
         if isinstance(c, tuple) and len(c) == 2 and (isinstance(c[0], str) and c[0] == 'frozenlist'):
             c = c[1]
         if isinstance(c, tuple) and len(c) == 2 and (isinstance(c[0], str) and c[0] == 'record'):
@@ -338,6 +349,7 @@ class CallMixin:
             if h.kind == 'sheap':
                 return self.sheap_peek(c, h, k, st, line)
             raise EngineError(f'subscript on {h.kind}')
+
         if isinstance(c, Opaque):
             spec = self.ext_spec(c.kind, '[]')
             if spec is not None:
@@ -394,7 +406,10 @@ class CallMixin:
                     h.meta['present'] = z3.Store(h.meta['present'], kt, True)
                     return [(NORMAL, st)]
                 if isinstance(h.meta['val_t'], ListOfT):
-                    v = self.seq_of(v, st)
+                    arr, n = self.list_as_array(v, st)
+                    h.meta['vals'] = {'arr': z3.Store(h.meta['vals']['arr'], kt, arr), 'len': z3.Store(h.meta['vals']['len'], kt, n)}
+                    h.meta['present'] = z3.Store(h.meta['present'], kt, True)
+                    return [(NORMAL, st)]
                 elif isinstance(v, Opaque):
                     v = v.term
                 else:
@@ -406,16 +421,18 @@ class CallMixin:
                 return self.symdict_setitem(c, h, k, v, st, line)
         raise EngineError(f'item assignment on {type(c).__name__} at line {line}')
 
-    def seq_of(self, v, st):
-        """z3 Seq(Int) of a list value (concrete list of ints or mapslot)."""
+    def list_as_array(self, v, st):
+        """(element array, length) of a list value (concrete list of ints or a map-held list)."""
         if isinstance(v, tuple) and v and (isinstance(v[0], str) and v[0] == 'mapslot'):
-            return z3.Select(st.obj(v[1]).meta['vals'], v[2])
+            vals = st.obj(v[1]).meta['vals']
+            return z3.Select(vals['arr'], v[2]), z3.Select(vals['len'], v[2])
         if isinstance(v, Ref) and st.obj(v).kind == 'list':
             items = st.obj(v).items
-            if not items:
-                return z3.Empty(z3.SeqSort(z3.IntSort()))
-            return z3.Concat(*[z3.Unit(to_int_term(x)) for x in items]) if len(items) > 1 else z3.Unit(to_int_term(items[0]))
-        raise EngineError('seq_of')
+            arr = z3.K(z3.IntSort(), z3.IntVal(0))
+            for i, x in enumerate(items):
+                arr = z3.Store(arr, i, to_int_term(x))
+            return arr, z3.IntVal(len(items))
+        raise EngineError('list_as_array')
 
     def slice_value(self, c, lo, hi, st, line):
         if isinstance(c, BytesV):
